@@ -28,14 +28,29 @@ func (f *Expand) Init(*onnx.NodeProto) error {
 func (f *Expand) Apply(inputs []tensor.Tensor) ([]tensor.Tensor, error) {
 	input := inputs[0]
 
-	shape, err := ops.AnyToIntSlice(inputs[1].Data())
-	if err != nil {
-		return nil, err
+	// An empty shape tensor holds no data that could be read; it leaves the input as it is.
+	shape := []int{}
+
+	if inputs[1].Shape().TotalSize() != 0 {
+		var err error
+
+		shape, err = ops.AnyToIntSlice(ops.IfScalarToSlice(inputs[1].Data()))
+		if err != nil {
+			return nil, err
+		}
+	}
+
+	// Expand broadcasts the input against the given shape (aligned at the last axis). If the
+	// shape has fewer dimensions than the input tensor, it is padded with 1's at the front.
+	for len(shape) < len(input.Shape()) {
+		shape = append([]int{1}, shape...)
 	}
 
 	// If the new shape has more dimensions than the input tensor, we
 	// need to prepend some dimensions to the input tensor shape.
 	if len(shape) > len(input.Shape()) {
+		var err error
+
 		input, err = ops.AddExtraDimsToTensor(input, len(shape)-len(input.Shape()))
 		if err != nil {
 			return nil, err
@@ -43,11 +58,19 @@ func (f *Expand) Apply(inputs []tensor.Tensor) ([]tensor.Tensor, error) {
 	}
 
 	for axis := len(shape) - 1; axis >= 0; axis-- {
-		if input.Shape()[axis] != shape[axis] {
-			input, err = tensor.Repeat(input, axis, shape[axis])
-			if err != nil {
-				return nil, err
-			}
+		if input.Shape()[axis] == shape[axis] || shape[axis] == 1 {
+			continue
+		}
+
+		if input.Shape()[axis] != 1 {
+			return nil, ops.ErrIncompatibleDimensions()
+		}
+
+		var err error
+
+		input, err = tensor.Repeat(input, axis, shape[axis])
+		if err != nil {
+			return nil, err
 		}
 	}
 
